@@ -60,6 +60,7 @@ class Tracker:
         self.inner = {}                # maker ident -> (current incarnation ident | None)
         self.inner_of = {}             # inner incarnation ident -> maker ident
         self.inner_len = {}            # maker ident -> length of its inner list
+        self.home = {}
         self.n_ident = 0
         self.n_handle = 0
         self.n_token = 0
@@ -67,10 +68,11 @@ class Tracker:
         self.hold = {}                 # client -> its proxies are still referenced (module global) when it exits
 
     # -- allocation
-    def new_ident(self, kind):
+    def new_ident(self, kind, srv='A'):
         i = self.n_ident
         self.n_ident += 1
         self.kind[i] = kind
+        self.home[i] = srv             # the server process that hosts it
         self.alive.add(i)
         if kind == 'list':
             self.content[i] = []
@@ -152,6 +154,10 @@ def gen_case(rng: random.Random, tier: str, bias: str = ''):
     steps = []
     proc_cls = rng.choice(['mpservice', 'mpservice', 'stdlib'])
     max_len = rng.choice([4, 8, 12]) if not big else rng.choice([12, 30, 60])
+    # two independent manager servers A and B in half of the cases: objects are created on either, and a proxy
+    # of an object hosted by one server may be stored in a container hosted by the other
+    two = bias == 'two' or (bias != 'one' and rng.random() < 0.5)
+    servers = ['A', 'B'] if two else ['A']
 
     batch = []          # [None] = off; a list = collecting sub-operations of a concurrent step
 
@@ -220,7 +226,8 @@ def gen_case(rng: random.Random, tier: str, bias: str = ''):
     def op_create():
         p = rng.choice(running())
         kind = rng.choice(['list', 'list', 'dict', 'mem', 'value', 'maker', 'maker', 'cell', 'ns'])
-        i = T.new_ident(kind)
+        srv = rng.choice(servers)
+        i = T.new_ident(kind, srv)
         h = add_handle(p, i)
         args = {'list': [[1, 2]], 'dict': [], 'mem': [rng.choice([1, 64, 5000])], 'value': ['i', 5], 'maker': [],
                 'cell': ['i', 5], 'ns': []}[kind]
@@ -229,7 +236,7 @@ def gen_case(rng: random.Random, tier: str, bias: str = ''):
         if kind == 'maker':
             T.inner[i] = None
             T.inner_len[i] = 1
-        emit('create', p, ['create', KINDS[kind][0], args, h], [f'create {p} {T.mk(i)} {i}'],
+        emit('create', p, ['create', KINDS[kind][0], args, h, srv], [f'create {p} {T.mk(i)} {i}'],
              new=[[h, i, KINDS[kind][1]]])
         return True
 
@@ -304,7 +311,25 @@ def gen_case(rng: random.Random, tier: str, bias: str = ''):
         p = rng.choice(cands)
         _, hc, c = container_of(p)
         x = pick_handle(p)
+        if two and rng.random() < 0.6:
+            # prefer a proxy of an object hosted by the *other* server
+            other = [(pp, h, i) for pp, h, i in T.live_handles() if pp == p and T.home[i] != T.home[c]]
+            if other:
+                x = rng.choice(other)
         _, hx, i = x
+        return do_store(p, hc, c, hx, i)
+
+    def op_cross():
+        """two servers: a proxy of an object hosted by one server goes into a container hosted by the other"""
+        if not two:
+            return False
+        cands = [(p, hc, c, hx, i) for p, hc, c in T.live_handles() if T.kind[c] in CONT and c not in T.inner_of
+                 for pp, hx, i in T.live_handles() if pp == p and T.home[i] != T.home[c]]
+        if not cands:
+            return op_create()
+        return do_store(*rng.choice(cands))
+
+    def do_store(p, hc, c, hx, i):
         macros = [f'store {p} {c} {i}']
         if T.kind[c] == 'list':
             T.content[c].append(('p', i))
@@ -317,6 +342,8 @@ def gen_case(rng: random.Random, tier: str, bias: str = ''):
                 macros.append(f'delitem {p} {c} {old[1]}')
             cmd = cmd_set(T.kind[c], hc, key, {'$h': hx})
         emit('store', p, cmd, macros)
+        if T.home[i] != T.home[c]:
+            steps[-1]['cross'] = [T.home[i], T.home[c]]     # proxy of an <home[i]>-object inside a <home[c]>-container
         return True
 
     def op_storeplain():
@@ -405,7 +432,7 @@ def gen_case(rng: random.Random, tier: str, bias: str = ''):
         args = []
 
         def fresh(kind, content=None):
-            i = T.new_ident(kind)
+            i = T.new_ident(kind, T.home[m])
             if content is not None:
                 T.content[i] = content
             h = add_handle(p, i)
@@ -435,7 +462,7 @@ def gen_case(rng: random.Random, tier: str, bias: str = ''):
                 keep.append(h)
                 macros.append(f'manage {p} {cur}')
             else:
-                i = T.new_ident('list')
+                i = T.new_ident('list', T.home[m])
                 del T.content[i]
                 T.inner[m] = i
                 T.inner_of[i] = m
@@ -530,12 +557,13 @@ def gen_case(rng: random.Random, tier: str, bias: str = ''):
                     emit('unpickle', p, ['unpickle', {'$saved': tok}, h], [f'unpickle {p} {i}'])
                 else:
                     k = rng.choice(['list', 'dict', 'value'])
-                    i = T.new_ident(k)
+                    srv = rng.choice(servers)
+                    i = T.new_ident(k, srv)
                     h = add_handle(p, i)
                     if k == 'list':
                         T.content[i] = [('v', 1), ('v', 2)]
                     args = {'list': [[1, 2]], 'dict': [], 'value': ['i', 5]}[k]
-                    emit('create', p, ['create', KINDS[k][0], args, h], [f'create {p} {T.mk(i)} {i}'],
+                    emit('create', p, ['create', KINDS[k][0], args, h, srv], [f'create {p} {T.mk(i)} {i}'],
                          new=[[h, i, KINDS[k][1]]])
             subs = batch[0]
         finally:
@@ -571,7 +599,7 @@ def gen_case(rng: random.Random, tier: str, bias: str = ''):
            (op_delete, 4), (op_store, 4), (op_storeplain, 1), (lambda: op_take('pop'), 3),
            (lambda: op_take('del'), 2), (lambda: op_take('get'), 3), (op_clear, 1), (op_managed, 7),
            (op_exit, 2), (op_call, 1), (op_pass, 3), (op_readall, 2), (op_extend, 1), (op_par, 3),
-           (op_qput, 2), (op_qget, 3)]
+           (op_qput, 2), (op_qget, 3), (op_cross, 7 if two else 0)]
     # every history starts with something to refer to
     op_create()
     n = 1
@@ -607,7 +635,9 @@ def gen_case(rng: random.Random, tier: str, bias: str = ''):
         for h in hs:
             i = T.handles['0'].pop(h)
             emit('delete', '0', ['delete', h], [f'delete 0 {i}'], probe=False)
-    return dict(kind='refcount', proc_cls=proc_cls, steps=steps, winddown=winddown, n_ops=n,
+    return dict(kind='refcount', proc_cls=proc_cls, steps=steps, winddown=winddown, n_ops=n, two_servers=two,
+                home={str(i): srv for i, srv in T.home.items()},
+                kindclass={str(i): KINDS[k][1] for i, k in T.kind.items()},
                 n_clients=T.n_client, n_idents=T.n_ident, settle=3.0 if not big else 6.0,
                 seed=rng.randrange(1 << 30))
 
@@ -625,7 +655,30 @@ def _shape(case):
         nested_release=('store' in ops or 'extend' in ops) and case['winddown'] and case['n_idents'] >= 3,
         transit_only='pickle' in ops and 'unpickle' in ops and 'delete' in ops,
         view_again=ops.count('managed:inner') >= 2,
+        # two manager servers: a proxy of an A-object inside a B-container (and the other way round), later taken
+        # out / dropped with its container / given back at wind-down
+        cross_a_in_b=any(st.get('cross') == ['A', 'B'] for st in case['steps']) and case['winddown'],
+        cross_b_in_a=any(st.get('cross') == ['B', 'A'] for st in case['steps']) and case['winddown'],
+        cross_removed=_cross_then(case, ('pop', 'del', 'clear')),
+        cross_mem=any(st.get('cross') and case['steps'][k2]['op'] == 'store' and
+                      KINDS_OF(case, st) == 'mem' for k2, st in enumerate(case['steps'])) and case['winddown'],
     )
+
+
+def KINDS_OF(case, st):
+    # kind class of the object whose proxy a cross-server store put away (from its macro `store p c i`)
+    i = st['macros'][0].split()[3]
+    return case.get('kindclass', {}).get(i)
+
+
+def _cross_then(case, ops):
+    seen = False
+    for st in case['steps']:
+        if st.get('cross'):
+            seen = True
+        elif seen and st['op'] in ops:
+            return True
+    return False
 
 
 _BOUNDARY = None
@@ -702,9 +755,15 @@ def run_case(case):
                     rule = 'not-released'
                 else:
                     rule = 'count'
+                srv = ''
+                if case.get('two_servers'):
+                    diff = sorted(k2 for k2 in set(obs['rc']) | set(exp['rc']) if obs['rc'].get(k2) != exp['rc'].get(k2))
+                    srv = (' [two servers; differing objects are hosted by: '
+                           + ', '.join(f'{k2}@{case["home"].get(k2, "?")}' for k2 in diff)
+                           + f'; per-server tables {obs.get("per_server")}]')
                 mon.append(dict(prop='C13', rule=rule,
                                 detail=f'{where}: hosted/refcount {obs["rc"]} but the references that exist give {exp["rc"]} '
-                                       f'(after waiting {obs["settle_s"]}s for the server to quiesce)'))
+                                       f'(after waiting {obs["settle_s"]}s for the server to quiesce){srv}'))
                 break
             if obs['shm'] != exp['shm']:
                 mon.append(dict(prop='C13', rule='shm',
